@@ -1,5 +1,5 @@
 (* C18 -- ClusterCIDR validation accepts exactly the documented specs; spec is immutable. *)
-From NIPAM Require Import Valid Valid_proofs.
+From NIPAM Require Import Valid Valid_proofs Lbl ValidSel.
 Open Scope Z_scope.
 
 (* no field error is returned exactly when: at least one of ipv4/ipv6 is given, each given range
@@ -8,6 +8,22 @@ Open Scope Z_scope.
 Theorem C18_validation_accepts_exactly_documented : forall s, validate_spec s = 0%nat <-> accepts s = true.
 Proof. exact validate_spec_accepts. Qed.
 Print Assumptions C18_validation_accepts_exactly_documented.
+
+(* the same on the selector itself: key validity (IsQualifiedName), the field key and node-name validity (IsDNS1123Subdomain)
+   are computed from the requirement's key and values (ValidSel.v, Lbl.v) instead of being taken from the library *)
+Theorem C18_validation_accepts_exactly_documented_selector :
+  forall sel hb v4 v6,
+  validate_spec_raw sel hb v4 v6 = 0%nat <->
+  (negb (match v4, v6 with VEmpty, VEmpty => true | _, _ => false end) && field_ok true 32 hb v4 && field_ok false 128 hb v6 &&
+   match sel with Some ts => rawsel_ok ts | None => true end)%bool = true.
+Proof. exact validate_spec_raw_accepts. Qed.
+Print Assumptions C18_validation_accepts_exactly_documented_selector.
+
+Example C18_selector_nonvacuous :
+  (* example.com/zone in (a) is accepted; a key with an empty name part is not *)
+  validate_spec_raw (Some [mkRawTerm [mkRaw [101;120;97;109;112;108;101;46;99;111;109;47;122;111;110;101]%N (Some OpIn) [[97%N]]] []]) 8 (VCidr true 16) VEmpty = 0%nat /\
+  validate_spec_raw (Some [mkRawTerm [mkRaw [120; 47]%N (Some OpExists) []] []]) 8 (VCidr true 16) VEmpty = 2%nat.
+Proof. split; vm_compute; reflexivity. Qed.
 
 (* the limits, for every prefix length at once *)
 Theorem C18_hostbits_limits : forall (is4 : bool) (ms hb : Z),
@@ -24,6 +40,6 @@ Proof. intros u o. rewrite validate_update_immutable. apply uspec_eqb_eq. Qed.
 Print Assumptions C18_update_immutable.
 
 Example C18_nonvacuous :
-  accepts (mkVspec (Some [mkVterm [mkVreq (Some OpIn) 2 true] []]) 8 (VCidr true 16) (VCidr false 64)) = true /\
+  accepts (mkVspec (Some [mkVterm [mkVreq (Some OpIn) 2 0%nat] []]) 8 (VCidr true 16) (VCidr false 64)) = true /\
   validate_spec (mkVspec None 3 (VCidr true 16) VEmpty) = 1%nat.
 Proof. split; reflexivity. Qed.
